@@ -57,6 +57,33 @@ func TestVerifC17HRR(t *testing.T) {
 		}
 		sni := vfGenDNSName(rt, "sni")
 		st.Eval()
+		if src.Kind != "golang" && rapid.IntRange(0, 3).Draw(rt, "cached_tls12_session") == 0 {
+			// the session cache already holds a TLS 1.2 session for this name (the server was TLS 1.2-only last time):
+			// its ticket travels in session_ticket, no pre_shared_key is offered, the retry is an ordinary one
+			cache := NewLRUClientSessionCache(4)
+			inner := mod
+			mod = func(c *Config) {
+				if inner != nil {
+					inner(c)
+				}
+				c.ClientSessionCache = cache
+				c.PreferSkipResumptionOnNilExtension = true
+			}
+			if p0, err0 := vfPrepareClient(src, sni, rapid.Uint64().Draw(rt, "primeseed"), mod); err0 == nil {
+				keys0 := vfCertKeysFor(p0.Offer, VersionTLS12, "")
+				if len(keys0) > 0 {
+					s0 := vfServerConfig(keys0[0], vfCertNames(sni)...)
+					s0.MaxVersion = VersionTLS12
+					pair0 := &vfPair{CP: p0.CP, SP: p0.SP, Cli: p0.UC, Srv: Server(p0.SP, s0)}
+					if cerr0, serr0 := pair0.Handshake(); cerr0 == nil && serr0 == nil && pair0.Echo([]byte("prime"), []byte("PRIME")) == nil {
+						st.Class("cache-holds-tls12-session")
+					}
+					pair0.Close()
+				} else {
+					p0.CP.Close()
+				}
+			}
+		}
 		p, err := vfPrepareClient(src, sni, rapid.Uint64().Draw(rt, "randseed"), mod)
 		if err != nil {
 			st.Violation(rt, "%s: %v", src, err)
